@@ -327,3 +327,22 @@ package argmapper
 //@   loop 1 invariant vsKept() && sliceskept([]reflect.StructField) && 0 <= i && i <= count && len(sf) == i && soff(sf) == 0 && (fresh(sf) || sf == nil)
 //@   loop 1 invariant forall(j, int, imp(0 <= j && j < i, allocated(sf[j]) && sf[j] != nil && sf[j].Type == getT(get, j) && sf[j].Tag == "argmapper:\",typeOnly\"" && sf[j].PkgPath == "" && !sf[j].Anonymous && !isMarkerStruct(getT(get, j))))
 //@   loop 1 decreases count - i
+
+// ---------------------------------------------------------------- func.go: NewFunc (C14)
+//@ ghost hasFinalErr(ft reflect.Type) bool = numOut(ft) >= 1 && outType(ft, numOut(ft) - 1) == errType
+//@ ghost nOutVals(ft reflect.Type) int = numOut(ft) - ite(hasFinalErr(ft), 1, 0)
+//@ ghost funcFrame() bool = vsKept() && kept(Func, argBuilder, NamedM, NamedSubM, TypedM, TypedSubM, []*Func, []ConverterGenFunc, []reflect.StructField) 
+
+//@ func NewFunc
+//@   ensures  [nil-or-non-func-rejected] imp(f == nil || kindof(dyntype(f)) != 19, result1 != nil)
+//@   ensures  [error-means-nil] imp(result1 != nil, result0 == nil)
+//@   ensures  [wraps-function] imp(result1 == nil, result0 != nil && fresh(result0) && f != nil && result0.fn == rvof(f) && kindof(dyntype(f)) == 19 && result0.onceResult == nil && result0.input != nil && result0.output != nil && fresh(result0.input) && fresh(result0.output) && result0.callOpts == opts)
+//@   ensures  [inputs-empty] imp(result1 == nil && numIn(dyntype(f)) == 0, emptyVS(result0.input))
+//@   ensures  [inputs-lifted] imp(result1 == nil && numIn(dyntype(f)) >= 1 && forall(i, int, imp(0 <= i && i < numIn(dyntype(f)), !isMarkerStruct(inType(dyntype(f), i)))), liftedVS(result0.input, methodval("reflect.(Type).In", dyntype(f)), numIn(dyntype(f))))
+//@   ensures  [inputs-struct] imp(result1 == nil && numIn(dyntype(f)) == 1 && isMarkerStruct(inType(dyntype(f), 0)), vsP1(result0.input, baseType(inType(dyntype(f), 0)), numField(baseType(inType(dyntype(f), 0)))) && vsP3(result0.input, baseType(inType(dyntype(f), 0)), numField(baseType(inType(dyntype(f), 0)))) && result0.input.structPointers == ptrDepth(inType(dyntype(f), 0)) && !result0.input.isLifted)
+//@   ensures  [mixed-marker-rejected] imp(numIn(dyntype(f)) > 1 && exists(i, int, 0 <= i && i < numIn(dyntype(f)) && isMarkerStruct(inType(dyntype(f), i))) && f != nil && kindof(dyntype(f)) == 19, result1 != nil)
+//@   ensures  [double-pointer-rejected] imp(f != nil && kindof(dyntype(f)) == 19 && numIn(dyntype(f)) == 1 && isMarkerStruct(inType(dyntype(f), 0)) && ptrDepth(inType(dyntype(f), 0)) > 1, result1 != nil)
+//@   ensures  [outputs-exclude-final-error] imp(result1 == nil && nOutVals(dyntype(f)) == 0, emptyVS(result0.output))
+//@   ensures  [outputs-lifted] imp(result1 == nil && nOutVals(dyntype(f)) >= 1 && forall(i, int, imp(0 <= i && i < nOutVals(dyntype(f)), !isMarkerStruct(outType(dyntype(f), i)))), liftedVS(result0.output, methodval("reflect.(Type).Out", dyntype(f)), nOutVals(dyntype(f))))
+//@   ensures  [frame] funcFrame()
+//@   assigns  Func, argBuilder, NamedM, NamedSubM, TypedM, TypedSubM, []*Func, []ConverterGenFunc, ValueSet, Value, valueInternal, []*Value, map[string]*Value, map[reflect.Type]*Value, map[string]string, []string, []interface{}, reflect.StructField, []reflect.StructField, vpos, rvstore, rvfresh
